@@ -56,6 +56,8 @@ pub fn generate(s: &mut Session, tier: &str, rng: &mut Rng) {
                 }
                 // an upload far larger than what the server can have consumed when the application closes right behind it
                 endings.push("close=app-early big".into());
+                // … and the target is slow to read: what the server still holds for it when the flow is dropped must get there
+                endings.push("close=app-early slow=1 big".into());
                 for e in endings {
                     let kind = *rng.pick(&KINDS);
                     let big = e.ends_with(" big");
